@@ -129,6 +129,11 @@ def explain(case, f):
     if (q["kind"] == "agg" and n_cols(q) >= 2 and any(a["fn"] in ("first", "last") for a in q["aggs"])
             and len({a["f"] for a in q["aggs"]}) >= 2 and ft.get("multi_series_group") and cf.get("phase") == "mem"):
         ids.append("C08-multicolumn-first-last-across-series")
+    if iv and fill == "null" and not q.get("group") and ft.get("count_null_in_row") and not ft["empty_bucket"]:
+        ids.append("C08-fill-null-count-fastpath")
+    if (q.get("star") and q.get("limit", 0) > 0 and ft.get("nseries", 0) > q.get("limit", 0) + q.get("offset", 0)
+            and ((not desc and q.get("has_tmin")) or (desc and q.get("has_tmax")))):
+        ids.append("C08-limit-prune-time-range")
     if fill == "prev" and ft.get("single_row_group"):
         ids.append("C08-fill-previous-single-row-group")   # last: a failure is attributed to it only when nothing else explains it
     return ids
@@ -145,6 +150,10 @@ FINDING_TEXT = {
     "C08-desc-first-last": "first()/last() in a descending aggregate query return a different point than in the ascending query",
     "C08-desc-selector-tie": "single min()/max() without time(): when the extreme value occurs at several timestamps a descending "
                              "query reports the latest of them, the ascending query the earliest",
+    "C08-fill-null-count-fastpath": "fill(null), GROUP BY time only, every bucket present: count() of a bucket without values for that column is "
+                                    "null when the answer fits one chunk (fast path returns the chunk unfilled) and 0 otherwise",
+    "C08-limit-prune-time-range": "SELECT * .. WHERE time >= t LIMIT n over more than n+offset series: series are pruned by the minimum time of "
+                                  "their file chunk, not clipped to t, so the series holding the first rows can be discarded",
     "C08-tie-order": "plain selection: order of rows with equal timestamps from different series changes with inner_chunk_size / limit",
     "C08-time-window-agg-store": "GROUP BY time() aggregates over series stored in several sources are wrong for small inner_chunk_size when the "
                                  "query is descending or the files overlap (out-of-order writes), and for descending + overlapping files at any size",
